@@ -367,11 +367,22 @@ func replayFile(t *testing.T, e Engine, path, out string) {
 	tp := ReplayTape(rep.Tape, true)
 	res := e.Run(t, rep.Property, rep.Tier, tp, true)
 	status := map[string]any{"digest": res.Digest, "expected_digest": rep.Digest, "diverged": tp.Diverged}
+	if res.Violation == nil {
+		// On a tree where the violation is gone the run necessarily leaves the recorded path; that is
+		// "did not reproduce", not a harness problem.
+		status["diverged"] = ""
+	}
+	if res.HarnessErr != "" {
+		status["diverged"] = "harness error: " + res.HarnessErr
+	}
 	if res.Violation != nil {
 		status["violation"] = res.Violation
 		status["reproduced"] = res.Violation.Oracle == rep.Violation.Oracle
 	} else {
 		status["reproduced"] = false
+	}
+	if lf := os.Getenv("VERIF_REPLAY_LOG"); lf != "" {
+		os.WriteFile(lf, []byte(joinLines(res.LogLines)), 0o644)
 	}
 	status["same_digest"] = res.Digest == rep.Digest
 	status["log_tail"] = tail(res.LogLines, 40)
